@@ -73,3 +73,29 @@ Theorem C09_seq_path_finished_generator_is_inert : forall s, qalive s = false ->
   fst (qstep s QNext) = s /\ fst (qstep s QClose) = s.
 Proof. exact seq_finished_generator_is_inert. Qed.
 Print Assumptions C09_seq_path_finished_generator_is_inert.
+
+(* ---- string values of pre_dispatch: joblib/_utils.py eval_expr over the REGENERATED operator table (Gen/T_operators.v),
+   then int() -- Model/PreDispatch.v, proofs in Proofs/PreDispatchThm.v *)
+Require Import JV.Model.PreDispatch JV.Gen.T_operators JV.Proofs.PreDispatchThm.
+From Coq Require Import QArith.
+
+(* 'n_jobs', '2*n_jobs', '1.5*n_jobs', '3*n_jobs/2' take n, 2n, floor(3n/2), floor(3n/2) items up front, for every n_jobs *)
+Theorem C09_pre_dispatch_documented_forms : forall n,
+  amount (nj n) = Some (Z.of_nat n) /\
+  amount (EBin OMul (EConst 2) (nj n)) = Some (2 * Z.of_nat n)%Z /\
+  amount (EBin OMul (EConst (3 # 2)) (nj n)) = Some (3 * Z.of_nat n / 2)%Z /\
+  amount (EBin ODiv (EBin OMul (EConst 3) (nj n)) (EConst 2)) = Some (3 * Z.of_nat n / 2)%Z.
+Proof. exact pre_dispatch_documented_forms. Qed.
+Print Assumptions C09_pre_dispatch_documented_forms.
+
+(* '/' is a true division: '1/2*n_jobs' is floor(n/2), not 0 *)
+Theorem C09_pre_dispatch_division_is_exact : forall n,
+  amount (EBin OMul (EBin ODiv (EConst 1) (EConst 2)) (nj n)) = Some (Z.of_nat n / 2)%Z.
+Proof. exact pre_dispatch_division_is_exact. Qed.
+Print Assumptions C09_pre_dispatch_division_is_exact.
+
+(* the amount is the value of the expression truncated: never more than the expression says, less than one below it *)
+Theorem C09_pre_dispatch_truncates : forall e q, eval src_operators src_neg e = Some q -> (0 <= q)%Q ->
+  exists a, amount e = Some a /\ (inject_Z a <= q)%Q /\ (q < inject_Z (a + 1))%Q.
+Proof. exact pre_dispatch_truncates. Qed.
+Print Assumptions C09_pre_dispatch_truncates.
